@@ -109,7 +109,9 @@ impl C08 {
                 }
                 let mut mem = Vec::new();
                 ax.verif_for_each_area(|start, _acc, data| {
-                    if !ext && start == rs {
+                    if data.is_empty() {
+                        // (empty areas are the mirror's own, see build_mirror)
+                    } else if !ext && start == rs {
                         mem = data.to_vec();
                     } else if ext && start == rs - 0x1000 {
                         mem = data[0x1000..0x1000 + rl as usize].to_vec();
